@@ -106,3 +106,39 @@ def run(ctx):
     if reader_bad and not out["rejections"]:
         raise vlib.ToolError("Trace_Reader accepted token logs that differ from Layout!Toks")
     ctx.exhaustive = False
+
+    if not q:
+        growth(ctx, cases)
+
+
+def growth(ctx, cases):
+    """Specification growth beyond C06 (thorough tier only; observations, never verdicts):
+    (A) the whole collector call protocol, illegal calls included (CollectorProtocol.tla), every call sequence of
+        length 5 over 7 small files replayed on the real DicomCollector;
+    (B) DicomCollectorOptions variants (odd_length x charset_override x read_preamble, matching and contradicting
+        the file; bare data sets with expected_ts) and (C) DataSetReaderOptions combinations (value_read x odd_length
+        x eager/lazy/flexible) on every file of the C06 universe, incl. the mixed-length nesting and icon heads;
+        read_until/read_to with stop tags that only occur inside nested items are part of the thorough stop set."""
+    r = vlib.tlc(R.SPEC, "MC_Protocol", "MC_Protocol.cfg", workers=4, timeout=3000, heap="6g")
+    ctx.check_model(r, "CollectorProtocol: illegal calls are no-ops, state sane")
+    ctx.require_coverage(r, ["Pre", "Meta", "Take", "Portion", "Bot", "Frag"])
+    ctx.extra_cov["growth_protocol_model_states"] = r.distinct
+    pc = ctx.path("proto.ndjson")
+    gr, n = vlib.tlc_generate(R.SPEC, "Gen_Protocol", "Gen_Protocol.cfg", pc, timeout=3000, heap="10g")
+    ctx.add_tlc(gr)
+    rep = vlib.run_driver(R.DRV, ["proto", "--cases", pc], env=ctx.env(), timeout=3000)
+    ctx.extra_cov["growth_protocol"] = {k: rep[k] for k in ("behaviours", "calls", "illegal_calls", "illegal_calls_answered_ok")}
+    vlib.log("[C06 growth] protocol: %d call sequences (%d calls, %d illegal) replayed" % (rep["behaviours"], rep["calls"], rep["illegal_calls"]))
+    R.note_observations(ctx, rep, "collector protocol (every call in every state, sequences of length 5)", "growth_protocol")
+    os.remove(pc)
+
+    files = ctx.path("files.ndjson")
+    with open(cases) as f, open(files, "w") as o:
+        for ln in f:
+            if '"beh":true' not in ln[:200] and '"rand":true' not in ln:
+                o.write(ln)
+    rep = vlib.run_driver(R.DRV, ["opts", "--cases", files], env=ctx.env(), timeout=3000)
+    ctx.extra_cov["growth_options"] = {k: rep[k] for k in ("collector_option_runs", "bare_dataset_runs", "reader_option_runs")}
+    vlib.log("[C06 growth] options: %d collector option runs, %d bare data set runs, %d reader option runs"
+             % (rep["collector_option_runs"], rep["bare_dataset_runs"], rep["reader_option_runs"]))
+    R.note_observations(ctx, rep, "collector / reader options on the C06 files", "growth_options")
